@@ -28,6 +28,7 @@ type TrCtx struct {
 	ac      map[string]string // term -> condition under which the term was read from allocated memory
 	knownIn map[string]bool   // "mapref|key" pairs known to be in the map's domain
 	letDefs []string          // enclosing let bindings (needed when a side fact mentions a let-bound name)
+	entryVars map[string]TVal // parameter values on entry (loop invariants: old(p))
 }
 
 func (tc *TrCtx) sub() *TrCtx {
@@ -352,6 +353,12 @@ func (tc *TrCtx) tr0(e Expr) TVal {
 	case *ENil:
 		return TVal{"0", types.Typ[types.UntypedNil]}
 	case *EIdent:
+		if tc.inOld && tc.entryVars != nil {
+			// inside old(): a parameter name denotes its value on entry
+			if v, ok := tc.entryVars[e.Name]; ok {
+				return v
+			}
+		}
 		if v, ok := tc.vars[e.Name]; ok {
 			return v
 		}
@@ -685,7 +692,14 @@ func (tc *TrCtx) trQuant(e *EQuant) TVal {
 	var t string
 	if e.Forall {
 		inner := implies(guard2(guard), body.t)
-		if e.Type != nil && S.sortOf(vt) == "Int" {
+		if len(e.Triggers) > 0 {
+			inner = "(! " + inner
+			for _, tr := range e.Triggers {
+				tv := n.tr0(tr)
+				inner += " :pattern (" + tv.t + ")"
+			}
+			inner += ")"
+		} else if e.Type != nil && S.sortOf(vt) == "Int" {
 			// quantification over references: trigger on every heap read at the bound reference
 			if pats := heapReadPatterns(inner, vname); len(pats) > 0 {
 				inner = "(! " + inner
@@ -809,6 +823,20 @@ func (tc *TrCtx) trCall(e *ECall) TVal {
 	}
 	sf := vc.eng.funs[e.Fun]
 	if sf == nil {
+		// a pure function of the package under contract
+		if tc.pkg != nil {
+			if fo, ok := tc.pkg.Scope().Lookup(e.Fun).(*types.Func); ok {
+				if fn := vc.eng.prog.FuncValue(fo); fn != nil {
+					if fc := vc.eng.contractFor(fn, "main"); fc != nil && fc.Pure {
+						var args []TVal
+						for _, a := range e.Args {
+							args = append(args, tc.tr(a))
+						}
+						return vc.eng.pureApp(vc, tc.st, fo, nil, args)
+					}
+				}
+			}
+		}
 		trFail("unknown spec function %s", e.Fun)
 	}
 	if len(e.Args) != len(sf.def.Params) {
